@@ -304,7 +304,6 @@ void run_batch(const Plan &plan, int opi, const Op &op, RunResult &r) {
 }
 
 // ------------------------------------------------------------------ fork
-static pid_t (*real_fork_fn)();
 
 static std::string g_child_report;
 
@@ -382,8 +381,7 @@ static void *forker_body(void *) {
     for (size_t k = G.atfork.size(); k-- > 0;) if (G.atfork[k].prepare) { t_in_sut = 1; G.atfork[k].prepare(); t_in_sut = 0; }
     // a thread that has finished may still be running its (sanitizer) teardown, holding allocator locks the child
     // would inherit: wait until it is really gone before forking
-    static bool joined_b; joined_b = false;
-    if (S.t[1].state == TS_DONE) { pthread_join(S.t[1].th, nullptr); joined_b = true; S.t[1].state = TS_GONE; }
+    if (S.t[1].state == TS_DONE) { pthread_join(S.t[1].th, nullptr); S.t[1].state = TS_GONE; }
     int pfd[2];
     if (pipe(pfd) != 0) { dprintf(2, "harness problem: pipe failed\n"); _exit(2); }
     pid_t p = fork();
